@@ -19,6 +19,7 @@ import json
 import os
 import pathlib
 import tempfile
+import warnings
 
 import common
 
@@ -810,5 +811,85 @@ class LoggerFailedCall(common.Suite):
         return f"mode={case['mode']},first-failing-field={'first' if first == 0 else 'later'},array={case['array_field']}"
 
 
+class RunAfterClose(common.Suite):
+    """files the simulation opened by name, a run, `close()`, and another run on the same object: whatever the second run
+    does (today it raises on the closed files), the bytes the first run left are still there — nothing re-opens a file in
+    a mode that truncates it. Oracle only."""
+
+    name = "run-after-close"
+
+    def cases(self, rng, tier):
+        for mode in ("w", "a"):
+            for driver in ("can", "gc", "fb"):
+                for n1, n2 in ((2, 2), (3, 1)):
+                    yield {"mode": mode, "driver": driver, "n1": n1, "n2": n2, "seed": rng.randrange(1, 2**31)}
+
+    def real(self, case):
+        import tempfile
+
+        import numpy as np
+        import quansino.mc  # noqa: F401
+        from ase import Atoms
+        from ase.build import bulk
+        from ase.calculators.calculator import Calculator, all_changes
+        from quansino.mc.canonical import Canonical
+        from quansino.mc.fbmc import ForceBias
+        from quansino.mc.gcmc import GrandCanonical
+        from quansino.moves.displacement import DisplacementMove
+        from quansino.moves.exchange import ExchangeMove
+
+        class Harm(Calculator):
+            implemented_properties = ["energy", "forces"]  # noqa: RUF012
+
+            def calculate(self, atoms=None, properties=None, system_changes=all_changes):
+                super().calculate(atoms, properties, system_changes)
+                d = self.atoms.get_positions() - 1.7
+                self.results = {"energy": 0.05 * float((d * d).sum()), "forces": -0.1 * d}
+
+        with tempfile.TemporaryDirectory() as tmp, warnings.catch_warnings():
+            warnings.simplefilter("ignore")
+            paths = {k: pathlib.Path(tmp) / f"{k}.txt" for k in ("log", "traj", "restart")}
+            atoms = bulk("Cu", cubic=True)
+            atoms.calc = Harm()
+            kw = dict(seed=case["seed"], logfile=paths["log"], trajectory=paths["traj"], logging_interval=1,
+                      logging_mode=case["mode"])
+            if case["driver"] == "can":
+                sim = Canonical(atoms, temperature=300.0, max_cycles=1, restart_file=paths["restart"],
+                                default_displacement_move=DisplacementMove(np.arange(len(atoms))), **kw)
+            elif case["driver"] == "gc":
+                sim = GrandCanonical(atoms, Atoms("Cu"), temperature=3000.0, chemical_potential=0.0, max_cycles=1,
+                                     number_of_exchange_particles=len(atoms), restart_file=paths["restart"],
+                                     default_exchange_move=ExchangeMove(np.arange(len(atoms))), **kw)
+            else:
+                sim = ForceBias(atoms, delta=0.05, temperature=300.0, **kw)
+            sim.run(case["n1"])
+            sim.close()
+            first = {k: p.read_bytes() for k, p in paths.items() if p.exists()}
+            raised = None
+            try:
+                sim.run(case["n2"])
+            except Exception as e:  # noqa: BLE001  (a run on closed files may well be refused)
+                raised = type(e).__name__
+            try:
+                sim.close()
+            except Exception:  # noqa: BLE001
+                pass
+            second = {k: p.read_bytes() for k, p in paths.items() if p.exists()}
+        lost = [k for k in ("log", "traj") if k in first and not second.get(k, b"").startswith(first[k])]
+        return {"raised": raised, "lost": lost, "sizes": {k: [len(first.get(k, b"")), len(second.get(k, b""))] for k in first}}
+
+    def oracle(self, case, obs):
+        if "exception" in obs:
+            return [(f"run-after-close:exception:{obs['exception']}", obs.get("message", "") + obs.get("trace", "")[-300:])]
+        if obs["lost"]:
+            return [(f"run-after-close:earlier-bytes-lost:{'+'.join(obs['lost'])}:mode={case['mode']}",
+                     f"{case['driver']}: after close() and a second run the files no longer start with what the first run wrote "
+                     f"(sizes first/second {obs['sizes']}, second run raised {obs['raised']})")]
+        return []
+
+    def classify(self, case, obs):
+        return f"{case['driver']}:{case['mode']}:raised={obs.get('raised')}"
+
+
 def suites(tier):
-    return [FileCrash(), FileSemantics(), LoggerFailedCall()]
+    return [FileCrash(), FileSemantics(), LoggerFailedCall(), RunAfterClose()]
